@@ -237,56 +237,5 @@ fn assumptions(_: &str) -> Vec<String> {
 }
 
 fn main() {
-    // Parent/child split: an oversize allocation must not unwind, so the engine runs in a child
-    // whose abnormal exit the parent translates into a replay file and a VIOLATION line.
-    if std::env::var("G_TOTAL_CHILD").is_ok() {
-        total::install_signal_handlers();
-        vcore::engine::main(all_subs(), &assumptions)
-    }
-    let args: Vec<String> = std::env::args().collect();
-    let exe = std::env::current_exe().expect("current_exe");
-    let out = std::process::Command::new(exe).args(&args[1 ..]).env("G_TOTAL_CHILD", "1").stderr(std::process::Stdio::piped()).spawn().and_then(|c| c.wait_with_output());
-    let out = match out { Ok(o) => o, Err(e) => { eprintln!("cannot run child: {}", e); std::process::exit(2) } };
-    let err = String::from_utf8_lossy(&out.stderr);
-    eprint!("{}", err);
-    let prop = args.get(1).cloned().unwrap_or_default();
-    match out.status.code() {
-        Some(code @ (98 | 99)) => {
-            let marker = if code == 99 { "VERIF-OVERSIZE" } else { "VERIF-CRASH" };
-            if let Some(line) = err.lines().find(|l| l.starts_with(marker)) {
-                let root = vcore::engine::verif_root();
-                let dir = root.join("replays");
-                let _ = std::fs::create_dir_all(&dir);
-                let case = line.split("case=").nth(1).unwrap_or("").trim().to_string();
-                let entry = line.split("entry=").nth(1).and_then(|s| s.split(" case=").next()).unwrap_or("?").to_string();
-                let p = dir.join(format!("{}-{}-{:016x}.json", prop, if code == 99 { "oversize" } else { "crash" }, hash_of(&line)));
-                let body = serde_json_min(&prop, &entry, &case, line);
-                let _ = std::fs::write(&p, body);
-                if args.iter().any(|a| a == "--replay") {
-                    // we are already replaying a single case: the crash reproduced
-                    println!("  [{}] {}: {} while decoding {}", if code == 99 { "oversize" } else { "crash" }, entry, if code == 99 { "allocation request above 64 MiB" } else { "fatal signal (memory corruption)" }, case);
-                    println!("VIOLATION property={} replay={}", prop, p.display());
-                    std::process::exit(1)
-                }
-                // confirm by re-running exactly that case in a fresh child
-                let exe = std::env::current_exe().expect("current_exe");
-                let again = std::process::Command::new(exe).arg(&prop).arg("quick").arg("--replay").arg(&p).env("G_TOTAL_CHILD", "1").stderr(std::process::Stdio::piped()).output();
-                match again.ok().and_then(|o| o.status.code()) {
-                    Some(98) | Some(99) | Some(1) => {
-                        println!("  [{}] {}: {} while decoding {} (reproduced in a fresh process)", if code == 99 { "oversize" } else { "crash" }, entry, if code == 99 { "allocation request above 64 MiB" } else { "fatal signal (memory corruption)" }, case);
-                        println!("VIOLATION property={} replay={}", prop, p.display());
-                        std::process::exit(1)
-                    }
-                    other => { eprintln!("abnormal child exit did not reproduce on the recorded case (second run: {:?}): inconclusive", other); std::process::exit(2) }
-                }
-            }
-            std::process::exit(2)
-        }
-        Some(c) => std::process::exit(c),
-        None => { eprintln!("child killed by a signal: inconclusive"); std::process::exit(2) }
-    }
-}
-
-fn serde_json_min(prop: &str, entry: &str, case: &str, line: &str) -> String {
-    format!("{{\n \"property\": \"{}\",\n \"sub\": \"raw-input\",\n \"entry\": \"{}\",\n \"tape\": \"00{}\",\n \"signature\": \"oversize-allocation\",\n \"observed\": \"{}\"\n}}\n", prop, entry.replace('"', "'"), case, line.replace('"', "'"))
+    total::supervise("raw-input", || vcore::engine::main(all_subs(), &assumptions))
 }
